@@ -477,6 +477,18 @@ def corpus():
     out.append(({'root': 'T', 'files': dst, 'relocate': 0, 'tz': 'CET-1CEST,M3.5.0,M10.5.0/3',
                  'muts': [['touch', 'fall/back.bin', 3600 * 10 ** 9], ['touch', 'spring/gap.bin', -3600 * 10 ** 9]]},
                 [{'opts': d, 'single': None, 'efile': True}, {'opts': [True, False, False], 'single': None, 'efile': True}]))
+    # recorded times at and next to the Unix epoch (extractors that store no dates, reproducible archives): 0.0 is a time like any other
+    ep = [f('layer/etc/hostname', ['r', 41, 33], 0), f('layer/motd', ['r', 42, 12], 1), f('readme', ['r', 43, 40], 86400), f('keep', ['r', 44, 9], 0)]
+    out.append(({'root': 'T', 'files': ep, 'relocate': 0,
+                 'muts': [['touch', 'layer/etc/hostname', 1000 * 10 ** 9], ['touch', 'readme', -86400 * 10 ** 9], ['touch', 'layer/motd', 5 * 10 ** 9]]},
+                [{'opts': d, 'single': None, 'efile': True}, {'opts': [True, False, False], 'single': None, 'efile': True}]))
+    out.append(({'root': 'T', 'files': ep, 'relocate': 1, 'muts': []}, [{'opts': d, 'single': None, 'efile': True}]))
+    # names a csv dialect guesser would trip over: a word between apostrophes, comma-separated quoted words, semicolons, tabs
+    odd = [f("'Heroes' (1977).txt", ['r', 51, 20], 1_400_000_000), f('lorem,"ipsum",dolor.txt', ['r', 52, 20], 1_400_000_100),
+           f("it's;a;b.txt", ['r', 53, 20], 1_400_000_200), f('tab\there.bin', ['r', 54, 20], 1_400_000_300), f('plain.bin', ['r', 55, 20], 1_400_000_400)]
+    out.append(({'root': 'T', 'files': odd, 'relocate': 0, 'muts': []}, [{'gen': True}, {'opts': d, 'single': None, 'efile': True}]))
+    out.append(({'root': 'T', 'files': odd, 'relocate': 0, 'muts': [['flip', 'plain.bin', 3, 1], ['flip', "'Heroes' (1977).txt", 0, 0]]},
+                [{'opts': d, 'single': None, 'efile': True}]))
     # exactly 256 (and 512 = 256 deleted + 256 flipped would be too slow: 256 deleted) recorded files in error: the exit status seen by
     # the caller of the command must still be non-zero (an error COUNT used as exit status wraps to 0 modulo 256)
     many = [f('m/%03d.t' % i, ['r', 1000 + i, 3], 1_300_000_000 + i) for i in range(256)] + [f('keep.t', ['r', 7, 3], 1_200_000_000)]
